@@ -6,7 +6,7 @@
   `lenMsg_ge_packMsgC` (C08).
 -/
 import DnsProofs.C09
-import DnsProofs.C08Msg
+import DnsProofs.C08Plain
 namespace Dns.C09M
 open Dns Dns.MU Dns.Len Dns.C08M Dns.C02M Dns.C09
 
@@ -103,6 +103,103 @@ theorem truncated_message_within_budget (m : MsgM) (size : Int) (hq : ∀ q ∈ 
     simp only [items, kept, List.map_take]
   rw [h4] at h2
   have : (n : Int) ≤ size := by rw [h2]; exact h3
+  omega
+
+end Dns.C09M
+
+namespace Dns.C09M
+open Dns Dns.MU Dns.Len Dns.C08M Dns.C02M Dns.C09
+
+/-- the OPT record (owner: the root) measures the same wherever it stands and whatever has been seen before:
+    `Len(edns0)`, which `Truncate` takes off its budget, is what `Msg.Len()` adds for it at the end -/
+theorem lenRRC_opt_indep (opt : RRm) (hname : opt.name = [46]) (hkind : opt.kind = "OPT") (off : Nat)
+    (c : Option (List Bytes)) : lenRRC off c opt = (lenRRC 0 none opt).map (fun q => (q.1, c)) := by
+  unfold lenRRC
+  have hd : ∀ o (c' : Option (List Bytes)), domainNameLen opt.name o c' true = (1, c') := by
+    intro o c'; rw [hname]; simp [domainNameLen]
+  simp only [hd, hkind, ↓reduceIte]
+  cases fieldsOfRR opt with
+  | none => rfl
+  | some fs => simp [planLenC, stepLenC]
+
+/-- the fold over a list with one more record at the end -/
+theorem lenFold_snoc (xs : List (Sum Qm RRm)) (r : RRm) (l : Nat) (c : Option (List Bytes)) :
+    lenFold lenItem (xs ++ [Sum.inr r]) l c =
+      ((lenFold lenItem xs l c).1 + (lenItem (lenFold lenItem xs l c).2 (lenFold lenItem xs l c).1 (Sum.inr r)).1,
+       (lenItem (lenFold lenItem xs l c).2 (lenFold lenItem xs l c).1 (Sum.inr r)).2) := by
+  rw [lenFold_append]
+  simp [lenFold]
+
+theorem lenSection_snoc (rs : List RRm) (o : RRm) (l : Nat) (c : Option (List Bytes)) (r : Nat × Option (List Bytes))
+    (h : lenSection l c (rs ++ [o]) = some r) :
+    ∃ q k, lenSection l c rs = some q ∧ lenRRC q.1 q.2 o = some k := by
+  induction rs generalizing l c with
+  | nil =>
+    simp only [List.nil_append, lenSection] at h
+    cases hk : lenRRC l c o with
+    | none => simp [hk] at h
+    | some k => exact ⟨(l, c), k, rfl, hk⟩
+  | cons x rs ih =>
+    simp only [List.cons_append, lenSection] at h
+    cases hx : lenRRC l c x with
+    | none => simp [hx] at h
+    | some q0 =>
+      simp only [hx, Option.bind_some] at h
+      obtain ⟨q, k, h1, h2⟩ := ih _ _ h
+      exact ⟨q, k, by simp [lenSection, hx, h1], h2⟩
+
+/-- **Truncate with an OPT record, whole messages**: the machine is run on the message without its OPT record and with
+    the budget `size − Len(opt)`; the kept message with the OPT record appended again packs into at most `size` -/
+theorem truncated_with_opt_within_size (m : MsgM) (opt : RRm) (hname : opt.name = [46]) (hkind : opt.kind = "OPT")
+    (hoptcov : Covered opt) (size : Int) (optLen : Nat) (hol : lenRRC 0 none opt = some (optLen, none))
+    (hq : ∀ q ∈ m.question, NameOK q.name) (hcov : ∀ r ∈ m.answer ++ m.ns ++ m.extra, Covered r)
+    (hfit : ((lenFold lenItem (m.question.map Sum.inl) 12 (some [])).1 : Int) ≤ size - optLen) :
+    let c := truncCounts lenItem (some []) (size - optLen) (toT m)
+    let kept : MsgM := { m with answer := m.answer.take c.a.2.1, ns := m.ns.take c.n.2.1,
+                                 extra := m.extra.take c.e.2.1 ++ [opt] }
+    ∀ (w : Bytes), packMsgCOf kept = some w → ∀ (n : Nat), lenMsg kept true = some n → (w.length : Int) ≤ size := by
+  intro c kept w hp n hl
+  have hcomp : ¬ (kept.question.length ≤ 1 ∧ kept.answer.isEmpty ∧ kept.ns.isEmpty ∧ kept.extra.isEmpty) := by
+    intro h; simp [kept] at h
+  have hcov' : ∀ r ∈ kept.answer ++ kept.ns ++ kept.extra, Covered r := by
+    intro r hr
+    simp only [kept, List.mem_append, List.mem_singleton] at hr
+    rcases hr with (h | h) | (h | h)
+    · exact hcov r (by simp [List.mem_of_mem_take h])
+    · exact hcov r (by simp [List.mem_of_mem_take h])
+    · exact hcov r (by simp [List.mem_of_mem_take h])
+    · rw [h]; exact hoptcov
+  have h1 := lenMsg_ge_packMsgC kept hq hcov' hcomp w hp n hl
+  have h2 := lenMsg_eq_fold kept n hl hcomp
+  have h3 := kept_len_le lenItem (some []) (size - optLen) (toT m) hfit
+  simp only [toT] at h3
+  have h4 : items kept.question kept.answer kept.ns kept.extra =
+      (m.question.map Sum.inl ++ (m.answer.map Sum.inr).take c.a.2.1 ++ (m.ns.map Sum.inr).take c.n.2.1 ++
+        (m.extra.map Sum.inr).take c.e.2.1) ++ [Sum.inr opt] := by
+    simp only [items, kept, List.map_take, List.map_append, List.map_cons, List.map_nil, List.append_assoc]
+  rw [h4, lenFold_snoc] at h2
+  simp only [lenItem] at h2
+  rw [lenRRC_opt_indep opt hname hkind, hol] at h2
+  simp only [Option.map_some, Option.getD_some] at h2
+  generalize hF : (lenFold lenItem (m.question.map Sum.inl ++ (m.answer.map Sum.inr).take c.a.2.1 ++
+    (m.ns.map Sum.inr).take c.n.2.1 ++ (m.extra.map Sum.inr).take c.e.2.1) 12 (some [])).1 = F at h2
+  have h5 : (F : Int) ≤ size - optLen := by rw [← hF]; exact h3
+  subst h2
+  push_cast
+  omega
+
+end Dns.C09M
+
+namespace Dns.C09M
+open Dns Dns.MU Dns.Len Dns.C08M Dns.C02M Dns.C09
+
+/-- **a reply that fits is left alone, and then it does fit**: when the uncompressed `Len()` is within the (effective)
+    size, `Truncate` only clears `Compress` (`truncate_fits`), and the plain packing is within that size -/
+theorem fits_packs_within (m : MsgM) (size : Int) (hq : ∀ q ∈ m.question, NameOK q.name)
+    (hcov : ∀ r ∈ m.answer ++ m.ns ++ m.extra, Covered r) (ulen : Nat) (hl : lenMsg m false = some ulen)
+    (hfit : (ulen : Int) ≤ effSize size) (w : Bytes) (hp : packMsgPlain m = some w) :
+    (w.length : Int) ≤ effSize size := by
+  have := lenMsg_ge_packMsgPlain m false hq hcov (Or.inl rfl) w hp ulen hl
   omega
 
 end Dns.C09M
